@@ -78,7 +78,7 @@ impl GraphEngine {
         let wal_path = wal_path.as_ref().to_path_buf();
 
         let mut pager = Pager::open(&ndb_path)?;
-        let wal = Wal::open(&wal_path)?;
+        let mut wal = Wal::open(&wal_path)?;
 
         let mut idmap = IdMap::load(&mut pager)?;
         let mut index_catalog = IndexCatalog::open_or_create(&mut pager)?;
@@ -94,7 +94,8 @@ impl GraphEngine {
         // HnswIndex::load needs generic Ctx = &mut Pager
         let vector_index = HnswIndex::load(params, v_store, g_store, &mut pager)?;
 
-        let committed = wal.replay_committed()?;
+        let (committed, committed_len) = Wal::replay_committed_with_len(&wal_path)?;
+        wal.truncate_to(committed_len)?;
         let state = scan_recovery_state(&committed);
 
         let mut segments: Vec<Arc<CsrSegment>> = Vec::new();
